@@ -4,7 +4,7 @@
     [Value x rest] with [rest] a suffix of [bs] (consumed <= available), or [Invalid];
     never [Oob] (read outside the buffer), never [BadAlloc] (reserve above alloc_cap). *)
 From Coq Require Import ZArith List.
-From VB Require Import Gen.Consts Serde.StreamDefs Serde.CodecSpec Serde.StreamProofs Serde.EntityDefs Serde.Theorems Serde.FitsProofs.
+From VB Require Import Gen.Consts Serde.StreamDefs Serde.CodecSpec Serde.StreamProofs Serde.EntityDefs Serde.Theorems Serde.FitsProofs Serde.StoredDefs Serde.StoredTheorems.
 Local Open Scope Z_scope.
 
 Theorem C06_primitives_total : forall bs,
@@ -80,3 +80,18 @@ Print Assumptions C06_parse_total_ContextInfoContainer.
 Theorem C06_parse_total_AuthenticatedContextInfoContainer : c06_ok c_authctx.
 Proof. exact authctx_c06. Qed.
 Print Assumptions C06_parse_total_AuthenticatedContextInfoContainer.
+Theorem C06_parse_total_VbkEndorsement : c06_ok c_vbk_endorsement.
+Proof. exact vbk_endorsement_c06. Qed.
+Print Assumptions C06_parse_total_VbkEndorsement.
+Theorem C06_parse_total_AltEndorsement : c06_ok c_alt_endorsement.
+Proof. exact alt_endorsement_c06. Qed.
+Print Assumptions C06_parse_total_AltEndorsement.
+Theorem C06_parse_total_StoredBlockIndex_Btc : c06_ok c_stored_btc.
+Proof. exact stored_btc_c06. Qed.
+Print Assumptions C06_parse_total_StoredBlockIndex_Btc.
+Theorem C06_parse_total_StoredBlockIndex_Vbk : c06_ok c_stored_vbk.
+Proof. exact stored_vbk_c06. Qed.
+Print Assumptions C06_parse_total_StoredBlockIndex_Vbk.
+Theorem C06_parse_total_StoredBlockIndex_Alt : c06_ok c_stored_alt.
+Proof. exact stored_alt_c06. Qed.
+Print Assumptions C06_parse_total_StoredBlockIndex_Alt.
